@@ -18,6 +18,9 @@ import (
 	"net"
 )
 
+// maxBodyLength is the largest body one UDP datagram carries after the 8-byte header.
+const maxBodyLength = 65507 - 8
+
 type data struct {
 	Index int
 	Body  []byte
